@@ -195,35 +195,52 @@ impl Sub for Concurrent {
     }
     fn check(&self, c: &ConcurrentCase, st: &mut Stats) -> Result<(), Fail> {
         let seed = seed_from(&c.seed).ok_or_else(|| Fail::new("harness:bad-replay", "seed must be 32 bytes"))?;
-        let key: Arc<api::Key> = api::key(c.n, seed);
-        let barrier = Arc::new(Barrier::new(c.threads));
-        let results: Vec<(Stats, Result<(), Fail>)> = std::thread::scope(|sc| {
-            let hs: Vec<_> = (0..c.threads)
-                .map(|t| {
-                    let key = key.clone();
-                    let barrier = barrier.clone();
-                    sc.spawn(move || {
-                        let mut st = Stats::default();
-                        barrier.wait();
-                        for i in 0..c.per_thread {
-                            let s = mix(c.msg_seed ^ ((t as u64) << 32 | i as u64));
-                            // thread 0 and 1 sign the same messages as each other
-                            let ms = if t == 1 { mix(c.msg_seed ^ i as u64) } else { s };
-                            let msg: Vec<u8> = (0..(ms % 48) as usize).map(|j| mix(ms + j as u64) as u8).collect();
-                            let mode = match i % 4 {
-                                0 => Mode::Biased { seed: s, p: 3000, biased_len: 400_000 },
-                                _ => Mode::Natural,
-                            };
-                            if let Err(f) = no_panic(|| sign_and_check(c.n, &key, &msg, &mode, &mut st)).unwrap_or_else(|p| Err(Fail::new("sign:panic", p))) {
-                                return (st, Err(f));
+        let cached: Arc<api::Key> = api::key(c.n, seed);
+        // Each round uses a FRESH secret-key object (decoded from the key's bytes, or generated
+        // again) that has never signed: lazily initialised state inside the key, if any, is then
+        // initialised under contention. Odd rounds warm the object up with one signature first.
+        let rounds = 8usize;
+        let per_round = (c.per_thread / rounds).max(1);
+        let mut results: Vec<(Stats, Result<(), Fail>)> = vec![];
+        for round in 0..rounds {
+            let fresh_sk = if round % 4 == 2 { api::keygen(c.n, seed).0 } else { api::Sk::from_bytes(c.n, &cached.sk_bytes).map_err(|e| Fail::new("sign:key-bytes", format!("the key's own bytes do not decode: {}", e)))? };
+            let key = Arc::new(api::Key { n: c.n, seed, sk: fresh_sk, pk: cached.pk.clone(), sk_bytes: cached.sk_bytes.clone(), pk_bytes: cached.pk_bytes.clone() });
+            if round % 2 == 1 {
+                let mut warm = Stats::default();
+                sign_and_check(c.n, &key, b"warm-up", &Mode::Natural, &mut warm)?;
+            }
+            let barrier = Arc::new(Barrier::new(c.threads));
+            let part: Vec<(Stats, Result<(), Fail>)> = std::thread::scope(|sc| {
+                let hs: Vec<_> = (0..c.threads)
+                    .map(|t| {
+                        let key = key.clone();
+                        let barrier = barrier.clone();
+                        sc.spawn(move || {
+                            let mut st = Stats::default();
+                            barrier.wait();
+                            for i in 0..per_round {
+                                let i = round * per_round + i;
+                                let s = mix(c.msg_seed ^ ((t as u64) << 32 | i as u64));
+                                // thread 0 and 1 sign the same messages as each other
+                                let ms = if t == 1 { mix(c.msg_seed ^ i as u64) } else { s };
+                                let msg: Vec<u8> = (0..(ms % 48) as usize).map(|j| mix(ms + j as u64) as u8).collect();
+                                let mode = match i % 4 {
+                                    0 => Mode::Biased { seed: s, p: 3000, biased_len: 400_000 },
+                                    _ => Mode::Natural,
+                                };
+                                if let Err(f) = no_panic(|| sign_and_check(c.n, &key, &msg, &mode, &mut st)).unwrap_or_else(|p| Err(Fail::new("sign:panic", p))) {
+                                    return (st, Err(f));
+                                }
                             }
-                        }
-                        (st, Ok(()))
+                            (st, Ok(()))
+                        })
                     })
-                })
-                .collect();
-            hs.into_iter().map(|h| h.join().unwrap_or_else(|_| (Stats::default(), Err(Fail::new("sign:panic", "a signing thread panicked"))))).collect()
-        });
+                    .collect();
+                hs.into_iter().map(|h| h.join().unwrap_or_else(|_| (Stats::default(), Err(Fail::new("sign:panic", "a signing thread panicked"))))).collect()
+            });
+            results.extend(part);
+            st.count("concurrency_rounds_on_a_fresh_key_object");
+        }
         for (s, r) in results {
             let total: u64 = s.counters.iter().filter(|(k, _)| k.starts_with("signatures_") && !k.contains("after")).map(|(_, v)| *v).sum();
             st.add("signatures_under_concurrency", total);
@@ -241,7 +258,7 @@ impl Sub for Concurrent {
 }
 
 const META: Meta = Meta {
-    rule: "proptest (key, message, signer randomness): keys from a per-run list of seeds (32 x Falcon-512 + 16 x Falcon-1024 at quick); messages of length 0, 1-2, 3-64, 94-98, 230-234 (40+len straddles the SHAKE-256 rate), ~1 KiB and 100 KiB, random / all-zero / all-0xFF; signer randomness natural (thread_rng), seeded uniform, or zero-biased through the SignRng hook (each byte of a prefix is 0x00 with probability p/65536: a zero top byte forces BaseSampler to z0 >= 5, inflating the vector's norm so that it straddles floor(beta^2) and drives the norm-retry loop and, for Falcon-1024, the compression-retry loop; the stream turns uniform after the prefix so that signing terminates). Oracle: verify accepts, and the reference verifier accepts the serialised triple. Concurrency scenarios: 2-32 threads released by a barrier share one secret key, each signing its own message list (threads 0 and 1 the same list), natural and biased mixed. Non-trivial = a signature that took a norm or compression retry, an empty or >= 1000-byte message, or a scenario with >= 8 threads; distinct by hash.",
+    rule: "proptest (key, message, signer randomness): keys from a per-run list of seeds (32 x Falcon-512 + 16 x Falcon-1024 at quick); messages of length 0, 1-2, 3-64, 94-98, 230-234 (40+len straddles the SHAKE-256 rate), ~1 KiB and 100 KiB, random / all-zero / all-0xFF; signer randomness natural (thread_rng), seeded uniform, or zero-biased through the SignRng hook (each byte of a prefix is 0x00 with probability p/65536: a zero top byte forces BaseSampler to z0 >= 5, inflating the vector's norm so that it straddles floor(beta^2) and drives the norm-retry loop and, for Falcon-1024, the compression-retry loop; the stream turns uniform after the prefix so that signing terminates). Oracle: verify accepts, and the reference verifier accepts the serialised triple. Concurrency scenarios: 2-32 threads released by a barrier share one secret key, each signing its own message list (threads 0 and 1 the same list), natural and biased mixed; every scenario runs 8 rounds, each on a fresh secret-key object (decoded from bytes or generated again) that has never signed, half of them warmed up by one signature first. Non-trivial = a signature that took a norm or compression retry, an empty or >= 1000-byte message, or a scenario with >= 8 threads; distinct by hash.",
     assumptions: &[
         "thread interleavings are stressed, not enumerated: the signer has no shared mutable state (no unsafe, no statics, thread-local generator, the secret key is only read)",
         "the SignRng hook only replaces the byte source; the body of sign runs unchanged on top of it",
